@@ -152,6 +152,9 @@ func sizeSlice(v ssa.Value) map[ssa.Value]bool {
 	var walk func(v ssa.Value)
 	walk = func(v ssa.Value) {
 		v = unspill(v)
+		if c := capturedLoadOf(v); c != nil {
+			v = c
+		}
 		if v == nil || seen[v] {
 			return
 		}
@@ -189,6 +192,40 @@ func helperArgs(call *ssa.Call, idx int, walk func(ssa.Value)) {
 	if h == nil || h.Blocks == nil || h.Pkg == nil || relPkg(h.Pkg.Pkg.Path()) != "internal/decode" {
 		return
 	}
+	// a function literal of the caller: the captured variables that are part of the size it returns on every
+	// successful return (sized := func(trailer int, ...) { ... size := n + m + int(dataSize) + trailer ... })
+	if h.Parent() != nil && h.Parent() == call.Parent() {
+		var common map[ssa.Value]bool
+		for _, ret := range returnsOf(h) {
+			if idx >= len(ret.Results) {
+				continue
+			}
+			if last := ret.Results[len(ret.Results)-1]; isErrorType(last.Type()) && knownNonNil(last) {
+				continue
+			}
+			if k, isK := unspill(ret.Results[idx]).(*ssa.Const); isK && k.Value != nil && len(ret.Results) > 1 && !isNilConst(ret.Results[len(ret.Results)-1]) {
+				continue
+			}
+			set := map[ssa.Value]bool{}
+			for v := range sizeSliceNoHelpers(unspill(ret.Results[idx])) {
+				if in, ok := v.(interface{ Parent() *ssa.Function }); ok && in.Parent() == call.Parent() {
+					set[v] = true
+				}
+			}
+			if common == nil {
+				common = set
+			} else {
+				for v := range common {
+					if !set[v] {
+						delete(common, v)
+					}
+				}
+			}
+		}
+		for v := range common {
+			walk(v)
+		}
+	}
 	for i, a := range call.Call.Args {
 		if i >= len(h.Params) || !isIntegerType(a.Type()) {
 			continue
@@ -222,6 +259,9 @@ func sizeSliceNoHelpers(v ssa.Value) map[ssa.Value]bool {
 	var walk func(v ssa.Value)
 	walk = func(v ssa.Value) {
 		v = unspill(v)
+		if c := capturedLoadOf(v); c != nil {
+			v = c
+		}
 		if v == nil || seen[v] {
 			return
 		}
